@@ -75,7 +75,8 @@ def gen_cases(rng, tier):
             elif r < 0.4: ops.append(["enable", t, cm])
             elif r < 0.55 and len(tasks) < 5:
                 ops.append(["spawn", t, len(tasks)]); tasks.append(len(tasks))
-            elif r < 0.9: ops.append(["query", t, cm])
+            elif r < 0.78: ops.append(["query", t, cm])
+            elif r < 0.92: ops.append(["scoped", t, cm, rng.random() < 0.6, rng.sample(range(6), rng.choice([0, 1, 2]))])   # with disabling(...): query; maybe raise
             else: ops.append(["full", t])
         cases.append({"kind": "ctl", "ops": ops})
     return cases
@@ -278,6 +279,16 @@ def run_impl(case):
                         if o == "disable": cache.disable(*sel); fut.set_result(None)
                         elif o == "enable": cache.enable(*sel); fut.set_result(None)
                         elif o == "query": fut.set_result(bool(cache.is_disable(*sel)))
+                        elif o == "scoped":
+                            inner = None
+                            try:
+                                with cache.disabling(*sel):
+                                    inner = bool(cache.is_disable(*[cmds[i] for i in op[4]]))
+                                    if op[3]:
+                                        raise RuntimeError("body of the disabling block fails")
+                            except RuntimeError:
+                                pass
+                            fut.set_result(inner)
                         elif o == "full": fut.set_result(bool(cache.is_full_disable))
                         elif o == "spawn":
                             queues[op[2]] = asyncio.Queue()
@@ -290,7 +301,7 @@ def run_impl(case):
                     fut = loop.create_future()
                     await queues[op[1]].put((op, fut))
                     r = await fut
-                    if op[0] in ("query", "full"):
+                    if op[0] in ("query", "full", "scoped"):
                         outs.append(r)
                 for tid in list(queues):
                     fut = loop.create_future()
@@ -340,6 +351,8 @@ def to_coq(case, obs):
             elif op[0] == "enable": ops.append(C("OEnable", Nat(op[1]), [Nat(i) for i in op[2]]))
             elif op[0] == "spawn": ops.append(C("OSpawn", Nat(op[1]), Nat(op[2])))
             elif op[0] == "query": ops.append(C("OQuery", Nat(op[1]), [Nat(i) for i in op[2]]))
+            elif op[0] == "scoped":      # with disabling(cmds): query - left normally or by an exception: disable, query, enable
+                ops += [C("ODisable", Nat(op[1]), [Nat(i) for i in op[2]]), C("OQuery", Nat(op[1]), [Nat(i) for i in op[4]]), C("OEnable", Nat(op[1]), [Nat(i) for i in op[2]])]
             else: ops.append(C("OFull", Nat(op[1])))
         return C("CCtl", [Nat(i) for i in range(31)], ops, list(obs["outs"]))
     raise ValueError(kind)
